@@ -506,16 +506,24 @@ func c07Check(r *zsim.Run, st *c07State, val any, err error, panicked any, didPa
 			found = true
 		}
 	}
+	if !found && didPanic && fmt.Sprint(panicked) == "send on closed channel" && st.redWrote > 0 && (len(st.cancels) > 0 || ctxFired) {
+		r.Failf("reducer-write-races-cancel", "the reducer's Write raced with a cancel/finish closing the output channel: the call ended with a runtime panic (send on closed channel) instead of one of %v", allowed)
+		return
+	}
 	if !found {
 		sort.Slice(allowed, func(i, j int) bool { return allowed[i].detail < allowed[j].detail })
 		r.Failf("wrong-result", "call ended with %v but the history allows only %v", actual, allowed)
 		return
 	}
-	// a panic raised before anything else could decide the result must be
-	// re-raised in the caller
+	// A panic must be re-raised in the caller when nothing else could decide
+	// the result first: either there is no competing normal result (the
+	// reducer itself panicked; ForEach/Finish*), or the reducer produced its
+	// result only after it had seen the end of its pipe - which the library
+	// closes only after every mapper (and the generator) has finished, i.e.
+	// after the panic had been handed to the library.
 	if len(st.panics) > 0 && len(st.cancels) == 0 && !ctxFired && actual.kind != "panic" {
-		if firstPanic < retSeq && (st.redInv == 0 || firstPanic < st.redInv) {
-			r.Failf("panic-swallowed", "a callback panicked (%v) before the reducer produced its result and nothing cancelled the call, yet the call ended with %v instead of re-raising the panic", st.panics, actual)
+		if firstPanic < retSeq && (st.redInv == 0 || st.redAll) {
+			r.Failf("panic-swallowed", "a callback panicked (%v) and nothing cancelled the call, yet the call ended with %v instead of re-raising the panic", st.panics, actual)
 			return
 		}
 	}
